@@ -36,7 +36,23 @@ class VocabInterp(StringInterp):
         if ch and len(ch) == 2 and ch[0] == "self" and ch[1] in self.DOMAINS:
             return self.DOMAINS[ch[1]]
         if isinstance(it, ast.Call) and isinstance(it.func, ast.Name) and it.func.id == "range":
-            a = [src(x) for x in it.args]
+            # bounds held in locals that are assigned once (`lo = self.pitch_range[0]`) are read as what they hold
+            defs = getattr(self, "_defs", None)
+            if defs is None:
+                defs = {}
+                for a_ in ast.walk(self.fi.node):
+                    if isinstance(a_, ast.Assign) and len(a_.targets) == 1 and isinstance(a_.targets[0], ast.Name):
+                        defs.setdefault(a_.targets[0].id, []).append(a_.value)
+                self._defs = defs
+
+            def rsrc(x):
+                # source text with once-assigned locals replaced by the subscript / attribute they hold (no copying: the trees carry parent links)
+                if isinstance(x, ast.Name) and len(defs.get(x.id, [])) == 1 and isinstance(defs[x.id][0], (ast.Subscript, ast.Attribute)):
+                    return src(defs[x.id][0])
+                if isinstance(x, ast.BinOp) and isinstance(x.op, (ast.Add, ast.Sub)):
+                    return f"{rsrc(x.left)} {'+' if isinstance(x.op, ast.Add) else '-'} {rsrc(x.right)}"
+                return src(x)
+            a = [rsrc(x) for x in it.args]
             if a == ["self.num_tracks"] or a == ["0", "self.num_tracks"]:
                 return "TRACK"
             if a == ["self.pitch_range[0]", "self.pitch_range[1] + 1"]:
@@ -63,6 +79,13 @@ class VocabInterp(StringInterp):
                     raise AnalysisError(f"{self.fi.qualname}: `{short(e)}` pops from an exhausted part list")
                 st[recv.id] = ("$list", lst[1:])
                 return lst[0]
+        if isinstance(e, ast.Call) and isinstance(e.func, ast.Name) and e.func.id == "next" and len(e.args) == 1 and isinstance(e.args[0], ast.Name) \
+                and isinstance(st.get(e.args[0].id), tuple) and st[e.args[0].id] and st[e.args[0].id][0] == "$list":
+            lst = st[e.args[0].id][1]                  # `it = iter(parts)` ... `next(it)`: the parts taken from the front, one by one
+            if not lst:
+                raise AnalysisError(f"{self.fi.qualname}: `{short(e)}` takes from an exhausted part list")
+            st[e.args[0].id] = ("$list", lst[1:])
+            return lst[0]
         if isinstance(e, ast.Subscript) and isinstance(e.value, ast.Name) and isinstance(st.get(e.value.id), tuple) and st[e.value.id][0] == "$list" \
                 and isinstance(e.slice, ast.Constant) and isinstance(e.slice.value, int) and 0 <= e.slice.value < len(st[e.value.id][1]):
             return st[e.value.id][1][e.slice.value]
@@ -71,7 +94,7 @@ class VocabInterp(StringInterp):
     def other_assign(self, name, value, st):
         if isinstance(value, ast.List) and not value.elts:
             st[name] = ("$list", ())
-        elif isinstance(value, ast.Call) and isinstance(value.func, ast.Name) and value.func.id == "list" and value.args \
+        elif isinstance(value, ast.Call) and isinstance(value.func, ast.Name) and value.func.id in ("list", "iter", "tuple") and value.args \
                 and isinstance(value.args[0], ast.Name) and isinstance(st.get(value.args[0].id), tuple):
             st[name] = st[value.args[0].id]
 
@@ -90,6 +113,7 @@ class VocabInterp(StringInterp):
         return st
 
     def for_bind(self, node, st):
+        st = super().for_bind(node, st)
         it = node.iter
         if isinstance(it, ast.Call) and attr_chain(it.func) == ["itertools", "product"] and len(it.args) == 1 and isinstance(it.args[0], ast.Starred) \
                 and isinstance(it.args[0].value, ast.Name) and isinstance(st.get(it.args[0].value.id), tuple):
